@@ -1,6 +1,7 @@
 // c08: correspondence harness for property C08 (argument binding).
-//   c08 bind   ...   Starlark-defined functions: signatures x calls (bind.go)
-//   c08 unpack ...   UnpackArgs / UnpackPositionalArgs built-ins (unpack.go)
+//
+//	c08 bind   ...   Starlark-defined functions: signatures x calls (bind.go)
+//	c08 unpack ...   UnpackArgs / UnpackPositionalArgs built-ins (unpack.go)
 package main
 
 import (
